@@ -450,6 +450,51 @@ func CompletionShapes() []*prog.Program {
 		b.P.Tags = append(b.P.Tags, "xor-nodefault")
 		out = append(out, b.Done())
 	}
+	out = append(out, ForkAtTheEdgeShapes()...)
+	return out
+}
+
+// ForkAtTheEdgeShapes: the token that forks is consumed at the very moment the flows it forked
+// come into being -- the instant at which "no token remains" must not be concluded.
+func ForkAtTheEdgeShapes() []*prog.Program {
+	var out []*prog.Program
+	{
+		// conditional flows leaving an activity, the first one false: the activity's own token is
+		// consumed, the other flow is taken by a new one
+		b := prog.NewBuilder("condflow_consumed")
+		s := b.AddNode("start", "")
+		t := b.AddNode("task", "")
+		t1 := b.AddNode("task", "")
+		e1 := b.AddNode("end", "")
+		t2 := b.AddNode("task", "")
+		e2 := b.AddNode("end", "")
+		b.Connect(s, t, prog.Cond{})
+		b.Connect(t, t1, prog.Cond{K: "false"})
+		b.Connect(t1, e1, prog.Cond{})
+		b.Connect(t, t2, prog.Cond{})
+		b.Connect(t2, e2, prog.Cond{})
+		b.P.Tags = append(b.P.Tags, "condflow", "fork-at-the-edge")
+		out = append(out, b.Done())
+	}
+	{
+		// a parallel fork whose first branch ends at once while the others have work to do
+		b := prog.NewBuilder("fork_first_ends")
+		s := b.AddNode("start", "")
+		t := b.AddNode("task", "")
+		f := b.AddNode("and", "")
+		e0 := b.AddNode("end", "")
+		b.Connect(s, t, prog.Cond{})
+		b.Connect(t, f, prog.Cond{})
+		b.Connect(f, e0, prog.Cond{})
+		for i := 0; i < 2; i++ {
+			u := b.AddNode("task", "")
+			e := b.AddNode("end", "")
+			b.Connect(f, u, prog.Cond{})
+			b.Connect(u, e, prog.Cond{})
+		}
+		b.P.Tags = append(b.P.Tags, "and", "fork-at-the-edge")
+		out = append(out, b.Done())
+	}
 	return out
 }
 
